@@ -68,7 +68,12 @@ Definition table_oracle5 (shows : list (spec_float * str)) (parses : list (str *
                          (uppers lowers : list (char * str)) (graphs : list (str * list str)) : oracle :=
   mkOracle (assoc_f shows) (fun s => match lookup s parses with Some r => r | None => None end)
            (assoc_n uppers) (assoc_n lowers)
-           (fun s => match lookup s graphs with Some g => g | None => map (fun c => [c]) s end).
+           (fun s => match lookup s graphs with Some g => g | None => map (fun c => [c]) s end)
+           (fun _ => None).
+(* the same with the text -> date-time conversion given as a table *)
+Definition with_dates (O : oracle) (dates : list (str * option datetime)) : oracle :=
+  mkOracle (fshow O) (fparse O) (upper_c O) (lower_c O) (graphemes O)
+           (fun s => match lookup s dates with Some r => r | None => None end).
 Definition table_oracle (shows : list (spec_float * str)) (parses : list (str * option spec_float)) : oracle :=
   table_oracle5 shows parses [] [] [].
 Definition no_oracle : oracle := table_oracle [] [].
